@@ -6,6 +6,7 @@ import (
 	"context"
 	"errors"
 	"fmt"
+	"strings"
 	"time"
 
 	lru "github.com/hashicorp/golang-lru/simplelru"
@@ -13,7 +14,9 @@ import (
 	pb "github.com/libp2p/go-libp2p-kad-dht/pb"
 	"github.com/libp2p/go-libp2p/core/host"
 	"github.com/libp2p/go-libp2p/core/peer"
+	"github.com/libp2p/go-libp2p/core/peerstore"
 	"github.com/libp2p/go-libp2p/core/protocol"
+	ma "github.com/multiformats/go-multiaddr"
 
 	"github.com/libp2p/go-libp2p-kad-dht/records"
 
@@ -37,13 +40,27 @@ import (
 // addition was handled and accepted. A refused ADD_PROVIDER (not from the
 // provider itself, or without an address) ends in a stream reset and is not an
 // addition: a later query that returns its peer is a never-added violation.
+//
+// Address policy (generator only, no rule of its own): the node is built with
+// or without the public AddressFilter option (the drawn filter rejects one
+// address family of the simulated universe), every provider has a drawn
+// address class (only accepted addresses, only rejected ones, both), and a
+// sender's connection may have been "identified" (its addresses, unfiltered,
+// are in the host's peerstore, as the identify service leaves them). Whether
+// an ADD_PROVIDER is accepted is observed (PING reply), never demanded; once it
+// was accepted the clause "a provider added ... through an accepted
+// ADD_PROVIDER is returned by every later provider query for that key ...
+// until the validity period has elapsed" applies whatever addresses the node
+// knows or may pass on for that provider (lost-provider / not-linearizable on
+// GET_PROVIDERS replies and on local queries alike).
 
 func init() {
 	sim.Register(&sim.Scenario{Prop: "C07", Name: "provider-handler", Weight: 1, Run: runC07Handler,
 		Real: []string{"IpfsDHT in server mode: handleNewStream/handleNewMessage, handleAddProvider, handleGetProviders, handlePing", "records.ProviderManager as built by dht.New (ProviderDatastore + ProviderManagerOpts)", "msgio framing"},
 		Stub: []string{"host + inbound streams (simhost.Fabric, scripted remote senders)", "datastore (simds: every operation parks)", "lock hand-over (scheduler-owned)"},
 		Faults: []string{"probe_rpc_add_acked", "probe_bad_add_refused", "probe_rpc_get_served", "probe_local_get_sees_rpc_add", "probe_rpc_get_sees_local_add",
-			"probe_cache_eviction", "probe_miss_load", "probe_expired_on_read", "probe_sweep_delete", "probe_readd_raced_sweep", "probe_closed_call", "probe_lin_checked"},
+			"probe_cache_eviction", "probe_miss_load", "probe_expired_on_read", "probe_sweep_delete", "probe_readd_raced_sweep", "probe_closed_call", "probe_lin_checked",
+			"probe_addr_filter_on", "probe_identified_sender", "probe_rpc_add_all_addrs_rejected_acked", "probe_rpc_get_serves_provider_known_by_rejected_addrs_only"},
 	})
 }
 
@@ -65,10 +82,44 @@ func runC07Handler(s *sim.Sim) {
 	nPeers := s.Range("peers", 1, 4)
 	nPhases := s.Range("phases", 1, 4)
 	nLocal := 2
-	s.Summary["cfg"] = fmt.Sprintf("V=%v sweep=%v cache=%d keys=%d peers=%d phases=%d", V, I, cacheSize, nKeys, nPeers, nPhases)
+	filterOn := s.Chance("addr-filter", 1, 2)
+	addrClass := make([]int, c07MaxPeers) // 0 accepted address only, 1 rejected address only, 2 both
+	for p := 0; p < nPeers; p++ {
+		addrClass[p] = s.Draw("addr-class", 3)
+	}
+	s.Summary["cfg"] = fmt.Sprintf("V=%v sweep=%v cache=%d keys=%d peers=%d phases=%d addrFilter=%v addrClass=%v", V, I, cacheSize, nKeys, nPeers, nPhases, filterOn, addrClass[:nPeers])
+	if filterOn {
+		s.Count("probe_addr_filter_on")
+	}
 
 	or := newC07Oracle(s, V, nKeys, nPeers+nLocal)
 	u, keys := or.u, or.keys
+	// the universe's own addresses (8.x.y.1) are the accepted family; 10.x.y.z is
+	// the family the drawn filter rejects
+	rejected := func(a ma.Multiaddr) bool { return strings.HasPrefix(a.String(), "/ip4/10.") }
+	addrFilter := func(in []ma.Multiaddr) []ma.Multiaddr {
+		out := make([]ma.Multiaddr, 0, len(in))
+		for _, a := range in {
+			if !rejected(a) {
+				out = append(out, a)
+			}
+		}
+		return out
+	}
+	addrsOf := func(p int) []ma.Multiaddr {
+		priv := ma.StringCast(fmt.Sprintf("/ip4/10.7.%d.1/tcp/4001", p))
+		switch addrClass[p] {
+		case 1:
+			return []ma.Multiaddr{priv}
+		case 2:
+			return append([]ma.Multiaddr{priv}, u.Peers[p].Addrs...)
+		}
+		return u.Peers[p].Addrs
+	}
+	opts := []dht.Option{}
+	if filterOn {
+		opts = append(opts, dht.AddressFilter(addrFilter))
+	}
 	h := simhost.New(s, u.Self.ID, u.Self.Addrs, u.Name)
 	fab := simhost.NewFabric(s)
 	d := simds.New(s, "pds")
@@ -77,13 +128,13 @@ func runC07Handler(s *sim.Sim) {
 	if cerr != nil {
 		panic(cerr)
 	}
-	node, err := dht.New(h,
+	node, err := dht.New(h, append(opts,
 		dht.ProtocolPrefix("/sim"), dht.Mode(dht.ModeServer), dht.DisableAutoRefresh(),
 		dht.ProviderDatastore(d),
 		dht.ProviderManagerOpts(records.Cache(cache), records.ProvideValidity(V), records.CleanupInterval(I), records.ProviderAddrTTL(time.Hour)),
 		dht.WithCustomMessageSender(func(_ host.Host, _ []protocol.ID) pb.MessageSenderWithDisconnect {
 			return &simnet.Sender{S: s, U: u}
-		}))
+		}))...)
 	if err != nil {
 		panic(err)
 	}
@@ -121,7 +172,7 @@ func runC07Handler(s *sim.Sim) {
 		o.hop = clients.Go(s, o.tag, func() (any, error) {
 			switch o.kind {
 			case "add":
-				o.err = node.ProviderStore().AddProvider(ctx, keys[o.key], u.Peers[o.peer].AddrInfo())
+				o.err = node.ProviderStore().AddProvider(ctx, keys[o.key], peer.AddrInfo{ID: u.Peers[o.peer].ID, Addrs: addrsOf(o.peer)})
 			case "get":
 				o.res, o.err = node.ProviderStore().GetProviders(ctx, keys[o.key])
 			case "close":
@@ -135,6 +186,12 @@ func runC07Handler(s *sim.Sim) {
 	startRemote := func(o *c07Op) {
 		sender := u.Peers[o.sender]
 		conn := h.Net().SetConnected(sender.ID, true)
+		if o.identified {
+			// what the identify service of a real host does for a connected peer
+			// (it knows nothing of the DHT's address filter)
+			h.Peerstore().AddAddrs(sender.ID, addrsOf(o.sender), peerstore.ConnectedAddrTTL)
+			s.Count("probe_identified_sender")
+		}
 		a, b := fab.NewPair("in:"+o.tag, kadProto, sender.ID, u.Self.ID, nil, conn)
 		a.Scripted = true
 		go h.Handler(kadProto)(b)
@@ -144,7 +201,7 @@ func runC07Handler(s *sim.Sim) {
 			out = encodeFrame(pb.NewMessage(pb.Message_GET_PROVIDERS, keys[o.key], 0))
 		} else {
 			msg := pb.NewMessage(pb.Message_ADD_PROVIDER, keys[o.key], 0)
-			ai := peer.AddrInfo{ID: u.Peers[o.peer].ID, Addrs: u.Peers[o.peer].Addrs}
+			ai := peer.AddrInfo{ID: u.Peers[o.peer].ID, Addrs: addrsOf(o.peer)}
 			if o.flavor == "no-addr" {
 				ai.Addrs = nil
 			}
@@ -186,6 +243,9 @@ func runC07Handler(s *sim.Sim) {
 					o.fin = true
 					if o.kind == "add" {
 						s.Count("probe_rpc_add_acked")
+						if filterOn && len(addrFilter(addrsOf(o.peer))) == 0 {
+							s.Count("probe_rpc_add_all_addrs_rejected_acked")
+						}
 					}
 				}
 			}
@@ -226,6 +286,9 @@ func runC07Handler(s *sim.Sim) {
 			// cross-path visibility probes
 			if o.kind == "get" && o.err == nil {
 				for _, p := range o.got {
+					if known := h.Peerstore().Addrs(u.Peers[p].ID); o.remote && filterOn && len(known) > 0 && len(addrFilter(known)) == 0 {
+						s.Count("probe_rpc_get_serves_provider_known_by_rejected_addrs_only")
+					}
 					for _, a := range or.addAttempts(o.key, p, o.call) {
 						if a.done && a.err == nil && a.remote && !o.remote {
 							s.Count("probe_local_get_sees_rpc_add")
@@ -328,10 +391,12 @@ func runC07Handler(s *sim.Sim) {
 					o.flavor = "valid"
 				}
 				o.remote, o.sender, o.mayFail = true, sender, true
+				o.identified = s.Chance("identified", 1, 2)
 			case 3, 4: // GET_PROVIDERS
 				sender := s.Draw("sender", nPeers)
 				o = or.newOp(sender, "get", key, 0)
 				o.remote, o.sender, o.mayFail = true, sender, true
+				o.identified = s.Chance("identified", 1, 2)
 			case 5:
 				o = or.newOp(nPeers+s.Draw("local", nLocal), "add", key, s.Draw("peer", nPeers))
 			default:
